@@ -441,8 +441,7 @@ Proof.
   rewrite (proj2 (header_signed_is_own d h Hsl) Hprop). reflexivity.
 Qed.
 
-(* a blinded block: every request to a relay carries the obtained block with that signature (or,
-   after another relay's block was taken, the version and no block at all) *)
+(* a blinded block: every request to a relay, whenever it is made, carries the obtained block with that signature *)
 Lemma relay_requests_signature :
   forall (H : N -> N -> N) (sign : N -> N -> N) (ch : chain) (acc : account) c e d i calls k st rq,
     block_answer_is_signers H sign ch acc c e d ->
@@ -452,7 +451,7 @@ Lemma relay_requests_signature :
       M5.e_proposal e = M5.POk pr /\ M5.p_blinded pr = true /\ M5.p_block pr = Some h /\ M5.h_slot h = M5.d_slot d
       /\ M5.signed_container (M5.p_version pr) true = Some code
       /\ let signed := L5.signed_proposal pr h (sign (a_key acc) (spec_signing_root H ch (MBlock (header_signed d h)))) code in
-         (rq = M5.unblind_request signed \/ rq = M5.late_request signed)
+         rq = M5.unblind_request signed
       /\ a_fail acc = false.
 Proof.
   intros H sign ch acc c e d i calls k st rq Hlink Hc Hk.
@@ -460,7 +459,6 @@ Proof.
     as (acct & pr & h & sg & code & w & al & rl & _ & Hpr & Hbl & Hb & Hsl & Hsg & Hcode & Hrq & Hin & _).
   destruct (linked_signature H sign ch acc c e d acct h sg Hlink Hsg Hin) as (-> & Hf).
   exists pr, h, code. repeat split; auto.
-  destruct Hrq as [->| (-> & _)]; [left|right]; reflexivity.
 Qed.
 
 (* ------------------------------------------------------------------------------------------- *)
